@@ -1,4 +1,5 @@
 import Ymq.Props.C13
+import Ymq.Props.C13Log
 #print axioms Ymq.C13.cursor_inv
 #print axioms Ymq.C13.small_recovery
 #print axioms Ymq.C13.table_recovery
@@ -13,3 +14,8 @@ import Ymq.Props.C13
 #print axioms Ymq.C13.fbase_new_classes
 #print axioms Ymq.C13.log_sum_bound
 #print axioms Ymq.C13.cofactor_spec
+#print axioms Ymq.C13.accumulator_spec_partial
+#print axioms Ymq.C13.accumulator_overflow_iff
+#print axioms Ymq.C13.accumulator_overflow_witness
+#print axioms Ymq.C13.accumulator_no_overflow_partial
+#print axioms Ymq.C13.smooths_threshold_spec
